@@ -138,6 +138,10 @@ func TestCheck(t *testing.T) {
 	env := core.GetEnv()
 	rep := core.NewReport(env, "netwalk")
 	defer func() { rep.Write(env.Out) }()
+	if env.Replay != "" && (env.Prop == "C06" || env.Prop == "C07") {
+		replayNet(t, env, rep)
+		return
+	}
 	switch env.Prop {
 	case "C06":
 		runC06(t, env, rep)
@@ -203,17 +207,7 @@ func runC06(t *testing.T, env core.Env, rep *core.Report) {
 				if nt {
 					rep.DistinctNontrivial++
 				}
-				replay := map[string]any{"engine": "netwalk", "property": "C06", "scenario": sc, "events": hist, "events_str": evs(hist)}
-				for _, p := range out.Problems {
-					rep.Violate(core.Violation{Kind: "safety/" + sc.Engine, What: sc.Name + ": " + p, Replay: replay})
-				}
-				if !out.Converged {
-					kind := fmt.Sprintf("no_convergence/%s/%s", sc.Engine, classify(sc, hist))
-					if out.Class != "" {
-						kind = fmt.Sprintf("no_convergence/%s/%s", sc.Engine, out.Class)
-					}
-					rep.Violate(core.Violation{Kind: kind, What: fmt.Sprintf("%s: after [%s] the fair continuation (reliable peer keeps answering, reconnects, 15 min of clock) does not reach the best chain offered", sc.Name, evs(hist)),
-						Replay: replay, Expected: out.WantTip, Observed: map[string]any{"tip": out.GotTip, "tip_height": out.TipHeight, "closure": tail(out.ClosureLog, 12), "state": out.Key, "nodes": out.NodeLogs}})
+				if judgeC06(rep, sc, hist, out) {
 					rep.Outcome("not-converged")
 					continue // do not expand a state that already violates
 				}
@@ -246,6 +240,61 @@ func runC06(t *testing.T, env core.Env, rep *core.Report) {
 	mark("done")
 	_ = progress.Close()
 	_ = os.Remove(env.Out + ".progress")
+}
+
+// judgeC06 applies the C06 oracle to one execution; reports whether it violated.
+func judgeC06(rep *core.Report, sc *Scenario, hist []Event, out Outcome) bool {
+	replay := map[string]any{"engine": "netwalk", "property": "C06", "scenario": sc, "events": hist, "events_str": evs(hist)}
+	for _, p := range out.Problems {
+		rep.Violate(core.Violation{Kind: "safety/" + sc.Engine, What: sc.Name + ": " + p, Replay: replay})
+	}
+	if !out.Converged {
+		kind := fmt.Sprintf("no_convergence/%s/%s", sc.Engine, classify(sc, hist))
+		if out.Class != "" {
+			kind = fmt.Sprintf("no_convergence/%s/%s", sc.Engine, out.Class)
+		}
+		rep.Violate(core.Violation{Kind: kind, What: fmt.Sprintf("%s: after [%s] the fair continuation (reliable peer keeps answering, reconnects, 15 min of clock) does not reach the best chain offered", sc.Name, evs(hist)),
+			Replay: replay, Expected: out.WantTip, Observed: map[string]any{"tip": out.GotTip, "tip_height": out.TipHeight, "closure": tail(out.ClosureLog, 12), "state": out.Key, "nodes": out.NodeLogs}})
+		return true
+	}
+	return false
+}
+
+type netReplay struct {
+	Replay struct {
+		Scenario *Scenario `json:"scenario"`
+		Events   []Event   `json:"events"`
+	} `json:"replay"`
+}
+
+// replayNet re-executes exactly one recorded (scenario, event list) of C06 / C07, five times,
+// and requires identical observations each time.
+func replayNet(t *testing.T, env core.Env, rep *core.Report) {
+	var rf netReplay
+	core.ReadJSON(env.Replay, &rf)
+	sc, hist := rf.Replay.Scenario, rf.Replay.Events
+	rep.Bound = "replay of " + env.Replay
+	var keys []string
+	for i := 0; i < 5; i++ {
+		out := Run(t, sc, hist, true, 2)
+		rep.Executions++
+		keys = append(keys, fmt.Sprint(out.Key, out.Converged, out.Containment, out.Problems))
+		if i > 0 {
+			if keys[i] != keys[0] {
+				rep.HarnessError("replay is not deterministic: run " + fmt.Sprint(i) + " differs from run 0")
+			}
+			rep.Rechecked++
+			continue
+		}
+		rep.States++
+		rep.Evaluations++
+		rep.Transitions += int64(len(hist))
+		if env.Prop == "C07" {
+			judgeC07(rep, sc, hist, out)
+		} else {
+			judgeC06(rep, sc, hist, out)
+		}
+	}
 }
 
 // classify names the configuration class of a non-converging case (for known-finding
